@@ -388,7 +388,7 @@ pub fn shrink_model(ms: &ModuleSet, fails: &mut dyn FnMut(&ModuleSet) -> bool, b
     let mut cur = ms.clone();
     let mut left = budget;
     let mut try_it = |cand: ModuleSet, cur: &mut ModuleSet, left: &mut usize| -> bool {
-        if *left == 0 || cand == *cur {
+        if *left == 0 || cand == *cur || !gen::tags_valid(&cand) {
             return false;
         }
         *left -= 1;
@@ -474,4 +474,167 @@ pub fn shrink_model(ms: &ModuleSet, fails: &mut dyn FnMut(&ModuleSet) -> bool, b
         }
     }
     cur
+}
+
+// ---------------------------------------------------------------------------------------
+// generic runner for in-process properties over generated module sets
+
+use crate::ev::{Ctx, Driver, Failure};
+use rayon::prelude::*;
+use serde_json::{json, Value};
+
+pub enum Verdict {
+    /// premise not met (counted under the label)
+    Skip(&'static str),
+    Pass {
+        nontrivial: bool,
+        classes: Vec<String>,
+    },
+    Fail {
+        /// failure signature used to keep shrinking on the same defect
+        key: String,
+        finding: Option<&'static str>,
+        what: String,
+        observed: Value,
+        nontrivial: bool,
+    },
+}
+
+pub struct GenericRun<'a> {
+    pub gcfg: GenCfg,
+    pub n: usize,
+    pub stream_len: usize,
+    pub salt: u64,
+    pub shrink_budget: usize,
+    pub max_violations: usize,
+    pub eval: &'a (dyn Fn(&ModuleSet) -> Verdict + Sync),
+}
+
+pub fn replay_model(v: &Value) -> Option<ModuleSet> {
+    serde_json::from_value(v["model"].clone()).ok()
+}
+
+pub fn model_payload(kind: &str, ms: &ModuleSet, observed: Value) -> Value {
+    json!({
+        "kind": kind,
+        "sources": [{"name": "input.asn", "text": print(ms)}],
+        "model": ms,
+        "observed": observed,
+    })
+}
+
+/// evaluate one model: bookkeeping + failure handling (shrinks unexplained failures)
+pub fn judge_model(ctx: &mut Ctx, run: &GenericRun, kind: &str, ms: &ModuleSet, shrink: bool) -> bool {
+    let v = (run.eval)(ms);
+    judge_verdict(ctx, run, kind, ms, shrink, v)
+}
+
+pub fn judge_verdict(ctx: &mut Ctx, run: &GenericRun, kind: &str, ms: &ModuleSet, shrink: bool, verdict: Verdict) -> bool {
+    let text = print(ms);
+    match verdict {
+        Verdict::Skip(label) => {
+            ctx.class(&format!("skipped:{label}"));
+            false
+        }
+        Verdict::Pass { nontrivial, classes } => {
+            ctx.case(&text, nontrivial);
+            for c in classes {
+                ctx.class(&c);
+            }
+            false
+        }
+        Verdict::Fail { key, finding, what, observed, nontrivial } => {
+            ctx.case(&text, nontrivial);
+            if finding.map_or(false, |f| ctx.is_known(f)) {
+                return ctx.fail(Failure { finding, what, replay: Value::Null });
+            }
+            let (small, what2, obs2, fid2) = if shrink {
+                let small = shrink_model(
+                    ms,
+                    &mut |m: &ModuleSet| matches!((run.eval)(m), Verdict::Fail { key: k, finding: f2, .. } if k == key && f2 == finding),
+                    run.shrink_budget,
+                );
+                match (run.eval)(&small) {
+                    Verdict::Fail { what, observed, finding, .. } => (small, what, observed, finding),
+                    _ => (ms.clone(), what, observed, finding),
+                }
+            } else {
+                (ms.clone(), what, observed, finding)
+            };
+            let mut payload = model_payload(kind, &small, obs2);
+            if let Value::Object(m) = &mut payload {
+                m.insert("unshrunk_input".into(), json!(text));
+            }
+            ctx.fail(Failure { finding: fid2, what: what2, replay: payload })
+        }
+    }
+}
+
+pub fn run_generic(ctx: &mut Ctx, run: &GenericRun, kind: &str) {
+    // replay tier: committed replays carry the model
+    for (_p, v) in crate::ev::replay_files(ctx.property) {
+        if v["kind"].as_str() != Some(kind) {
+            continue;
+        }
+        if let Some(ms) = replay_model(&v) {
+            judge_model(ctx, run, kind, &ms, false);
+        }
+    }
+    let mut drv = Driver::new(ctx.seed, run.salt, run.stream_len);
+    let chunk = 2000;
+    let mut done = 0;
+    let mut seen_keys = std::collections::BTreeSet::new();
+    while done < run.n && ctx.violations.len() < run.max_violations {
+        let k = chunk.min(run.n - done);
+        let trees = drv.draw(k);
+        let streams: Vec<Vec<u32>> = trees.iter().map(|t| t.current()).collect();
+        drop(trees);
+        let models: Vec<(ModuleSet, std::collections::BTreeMap<&'static str, u64>)> =
+            streams.par_iter().map(|s| gen_set_x(s, &run.gcfg)).collect();
+        let verdicts: Vec<Verdict> = models.par_iter().map(|(m, _)| (run.eval)(m)).collect();
+        for (i, ((m, excl), v)) in models.iter().zip(verdicts.into_iter()).enumerate() {
+            for (k2, v) in excl {
+                ctx.class_n(&format!("excluded_by_finding[{k2}]"), *v);
+            }
+            if let Verdict::Fail { key, finding, .. } = &v {
+                let known = finding.map_or(false, |f| ctx.is_known(f));
+                if !known && !seen_keys.insert(key.clone()) {
+                    // same signature as an already reported failure of this run
+                    ctx.class("repeat_of_reported_failure");
+                    continue;
+                }
+            }
+            if done == 0 && i < 2 {
+                ctx.sample_text("generated module set", &print(m));
+            }
+            judge_verdict(ctx, run, kind, m, true, v);
+            if ctx.violations.len() >= run.max_violations {
+                break;
+            }
+        }
+        done += k;
+    }
+    ctx.extra.insert("generated_inputs".into(), json!(done));
+}
+
+/// `--replay FILE` for model-carrying replay files
+pub fn replay_generic(ctx: &mut Ctx, run: &GenericRun, kind: &str, path: &str) -> i32 {
+    let v: Value = match std::fs::read_to_string(path).ok().and_then(|t| serde_json::from_str(&t).ok()) {
+        Some(v) => v,
+        None => {
+            eprintln!("cannot read replay file {path}");
+            return 2;
+        }
+    };
+    match replay_model(&v) {
+        Some(ms) => {
+            let bad = judge_model(ctx, run, kind, &ms, false);
+            println!("replay: {}", if bad { "FAILS" } else { "holds (or attributed to a known finding)" });
+            0
+        }
+        None => {
+            eprintln!("replay file has no model");
+            2
+        }
+    }
 }
